@@ -145,11 +145,11 @@ prop('C13', ['D1', 'D2', 'D3', 'K2', 'NS1'],
      'sort OrderedDict (D2, K2); the namespace is handed down unchanged (NS1); set/query shapes (D3).',
      ['restoration over all nestings (follows from D1 by an induction the checker does not make)'])
 
-prop('C14', ['A1', 'A3', 'A5', 'G5', 'M3'],
+prop('C14', ['A1', 'A3', 'A5', 'A6', 'A7', 'G5', 'M3'],
      'Immutability / aliasing / GC: inspection methods return fresh containers and all bound '
      'methods are const (A1); tp_traverse visits every Python object a node holds and the fields '
      'are owning types (A3); in-place mutators are applied only to objects created by the same '
-     'call (A5); key lists are copies (M3); registry references are paired (G5).',
+     'call (A5); the Python package reads a mapping of the caller by a computed key only after a key-set comparison has excluded missing keys - a defaultdict would answer such a read by inserting into the tree of the caller (A6) - and mutates in place only containers it created itself (A7); key lists are copies (M3); registry references are paired (G5).',
      ['observational immutability over histories'])
 
 prop('C15', ['E1', 'E2', 'E3', 'E4', 'E5', 'E6', 'K7', 'I2', 'A5', 'D1'],
